@@ -649,7 +649,7 @@ class CylindricalComponentsAverageBlockCollection(BlockCollection):
             weight = bWeight * c.getArea()
             totalWeight += weight
             densities += weight * np.array(c.getNuclideNumberDensities(allNucNames))
-        if totalWeight > 0.0:
+        if totalWeight != 0.0:
             weightedDensities = densities / totalWeight
         else:
             weightedDensities = np.zeros_like(densities)
@@ -880,7 +880,7 @@ class SlabComponentsAverageBlockCollection(BlockCollection):
             weight = bWeight * c.getArea()
             totalWeight += weight
             densities += weight * np.array(c.getNuclideNumberDensities(allNucNames))
-        if totalWeight > 0.0:
+        if totalWeight != 0.0:
             weightedDensities = densities / totalWeight
         else:
             weightedDensities = np.zeros_like(densities)
